@@ -2,6 +2,7 @@ package props
 
 import (
 	"fmt"
+	"math/big"
 	"strings"
 
 	"github.com/indexsupply/shovel/dig"
@@ -251,6 +252,11 @@ func (g *abiGen) value(t *aty, out *[]string) {
 			var n int
 			fmt.Sscanf(t.name, "int%d", &n)
 			copy(w[32-n/8:], r.Bytes(n/8))
+			if r.Chance(1, 3) {
+				// boundary values of the machine-word conversions: 0, +-1, +-2^63, 2^63-1, 2^64-1, 2^64, min, max
+				b := boundaryInt(r, n)
+				copy(w[32-n/8:], b[32-n/8:])
+			}
 			if w[32-n/8]&0x80 != 0 { // sign-extend
 				for i := 0; i < 32-n/8; i++ {
 					w[i] = 0xff
@@ -260,6 +266,11 @@ func (g *abiGen) value(t *aty, out *[]string) {
 			var n int
 			fmt.Sscanf(t.name, "uint%d", &n)
 			copy(w[32-n/8:], r.Bytes(n/8))
+			if r.Chance(1, 4) {
+				b := boundaryInt(r, n)
+				w = make([]byte, 32)
+				copy(w[32-n/8:], b[32-n/8:])
+			}
 			if r.Chance(1, 6) {
 				w = make([]byte, 32) // zero
 			}
@@ -309,4 +320,18 @@ func eventOf(name string, inputs []*aty) dig.Event {
 		ev.Inputs = append(ev.Inputs, in.input())
 	}
 	return ev
+}
+
+// boundaryInt: a 32-byte big-endian word holding (mod 2^256, two's complement) one of the values at which
+// 64-bit conversions change behaviour; the caller keeps the low n bits
+func boundaryInt(r *core.Rand, n int) []byte {
+	two := big.NewInt(2)
+	p := func(k int64) *big.Int { return new(big.Int).Exp(two, big.NewInt(k), nil) }
+	cands := []*big.Int{big.NewInt(0), big.NewInt(1), big.NewInt(-1), p(63), new(big.Int).Sub(p(63), big.NewInt(1)), new(big.Int).Add(p(63), big.NewInt(1)),
+		new(big.Int).Sub(p(64), big.NewInt(1)), p(64), new(big.Int).Neg(p(63)), new(big.Int).Sub(new(big.Int).Neg(p(63)), big.NewInt(1)),
+		new(big.Int).Sub(p(int64(n-1)), big.NewInt(1)), new(big.Int).Neg(p(int64(n - 1))), big.NewInt(10_000_000_000_000_000_00), p(62), p(32)}
+	v := new(big.Int).Mod(core.Pick(r, cands), p(256))
+	out := make([]byte, 32)
+	v.FillBytes(out)
+	return out
 }
